@@ -3,7 +3,9 @@ package c14
 import (
 	"encoding/json"
 	"fmt"
+	"os"
 	"sort"
+	"strconv"
 	"strings"
 	"testing"
 
@@ -398,7 +400,11 @@ func genCase(t *rapid.T) *Case {
 }
 
 func TestPropMachine(t *testing.T) {
-	hx.Check(t, "machine", hx.N(600, 20000), func(t *rapid.T) {
+	n := hx.N(600, 20000)
+	if v, err := strconv.Atoi(os.Getenv("C14_N")); err == nil && v > 0 {
+		n = v // development knob: number of machines per shard
+	}
+	hx.Check(t, "machine", n, func(t *rapid.T) {
 		c := genCase(t)
 		if err := try("machine", c); err != nil {
 			if isHarness(err) {
